@@ -15,8 +15,8 @@ static void region_init(void)
     mprotect(region, PAGE, PROT_NONE); mprotect(data_hi, PAGE, PROT_NONE);
 }
 
-static long drift_texts, drift_recorded, failinj_runs, prealloc_calls, print_calls;
-static int do_failinject;
+static long drift_texts, drift_recorded, failinj_runs, prealloc_calls, print_calls, inplace_calls, table_strings;
+static int do_failinject, full_table;
 static FILE *driftf;
 
 static void viol(const char *prop, const char *fmt, ...)
@@ -131,14 +131,14 @@ static int do_case(const jv *line)
 #ifdef VD_ASAN
             if (pre == 0 && cfg == 0) continue;   /* growing a zero-byte buffer by hand copies one byte out of it; not part of any listed property */
 #endif
-            al_window(0); s = cJSON_PrintBuffered(t, (int)pre, fmt); print_calls++;
+            al_window(0); s = cJSON_PrintBuffered(t, (int)pre, vb_truthy(fmt, (unsigned long)pre)); print_calls++;
             if (!s) viol("C04 C05", "cJSON_PrintBuffered(prebuffer %ld, allocator config %d) returned NULL", pre, cfg);
             else if (ref_text && strcmp(s, ref_text)) viol("C05", "cJSON_PrintBuffered(prebuffer %ld, allocator config %d) returns different bytes than cJSON_Print%s: %s", pre, cfg, fmt ? "" : "Unformatted", s);
             cJSON_free(s);
         }
         { static const long extra[] = { 64, 255, 256, 257, 1000, 4095, 4096, 4097, 5000, 16384, 70000 }; size_t e;
           for (e = 0; e < sizeof(extra) / sizeof(extra[0]); e++) {      /* far more room than needed: nothing may be cut off */
-              al_window(0); s = cJSON_PrintBuffered(t, (int)((long)L + extra[e]), fmt); print_calls++;
+              al_window(0); s = cJSON_PrintBuffered(t, (int)((long)L + extra[e]), vb_truthy(fmt, e)); print_calls++;
               if (!s) viol("C04 C05", "cJSON_PrintBuffered(prebuffer %ld) returned NULL", (long)L + extra[e]);
               else if (ref_text && strcmp(s, ref_text)) viol("C04 C05", "cJSON_PrintBuffered(prebuffer = text length + %ld, allocator config %d) returns different bytes than cJSON_Print%s: %.80s", extra[e], cfg, fmt ? "" : "Unformatted", s);
               cJSON_free(s);
@@ -159,11 +159,13 @@ static int do_case(const jv *line)
     if (ref_text) {
         char *s2; cJSON *stack[256]; int sp = 0, pass; cJSON *c;
         for (pass = 0; pass < 2; pass++) {
+            if (pass == 0) vb_stale_keys(t, (int)(VD.cases & 3));      /* array elements that keep the key of an earlier life */
             sp = 0; stack[sp++] = t;
             while (sp) { cJSON *x = stack[--sp]; if (pass == 0) { if (x->string) x->type |= cJSON_StringIsConst; x->type |= cJSON_IsReference; } else x->type &= 0xFF; for (c = x->child; c && sp < 256; c = c->next) stack[sp++] = c; }
+            if (pass == 1) vb_stale_clear(t);
             if (pass == 0 && L < 5000) {
                 s2 = fmt ? cJSON_Print(t) : cJSON_PrintUnformatted(t);
-                if (!s2 || strcmp(s2, ref_text)) viol("C04 C05", "with ownership flags set on the nodes the printed text differs: %.100s", s2 ? s2 : "(null)");
+                if (!s2 || strcmp(s2, ref_text)) viol("C04 C05", "with ownership flags set on the nodes and left-over keys on array elements the printed text differs: %.100s", s2 ? s2 : "(null)");
                 cJSON_free(s2);
                 s2 = cJSON_PrintBuffered(t, 1, fmt);
                 if (!s2 || strcmp(s2, ref_text)) viol("C04 C05", "with ownership flags set on the nodes cJSON_PrintBuffered gives different text");
@@ -179,28 +181,128 @@ static int do_case(const jv *line)
     }
     /* caller buffer of every size (C09) */
     if (ref_text) {
-        long n, prev_ok = 0; size_t RL = strlen(ref_text);
-        for (n = 0; n <= (long)RL + 16; n += (RL > 20000 && n > 300 && n < (long)RL - 24) ? 8191 : (RL > 200 && n > 4 && n < (long)RL - 24) ? 13 : 1) {
+        long n, prev_ok = 0; size_t RL = strlen(ref_text); int tv;
+        /* "formatted" is any non-zero int: every rotating value of it is run over every size */
+        for (tv = 0; tv < (fmt ? 4 : 1); tv++)
+        for (n = 0, prev_ok = 0; n <= (long)RL + 16; n += (RL > 20000 && n > 300 && n < (long)RL - 24) ? 8191 : (RL > 200 && n > 4 && n < (long)RL - 24) ? 13 : 1) {
             vd_tick();
             unsigned char *buf = data_hi - n; int r; long i;
             memset(data_lo, 0xEE, DATA_PAGES * PAGE);
             if (!VD_TRY()) { al_in_call = 0; viol("*", "cJSON_PrintPreallocated(n = %ld, text length %zu): memory fault at %p (buffer %p..%p)", n, RL, (void*)vd_fault_addr, (void*)buf, (void*)data_hi); break; }
             al_in_call = 1; al_window(0);
-            r = cJSON_PrintPreallocated(t, (char*)buf, (int)n, fmt); prealloc_calls++;
+            r = cJSON_PrintPreallocated(t, (char*)buf, (int)n, vb_truthy(fmt, (unsigned long)tv)); prealloc_calls++;
             al_in_call = 0; VD_END();
             for (i = 0; i < 256 && buf - 1 - i >= data_lo; i++) if (buf[-1 - i] != 0xEE) { viol("C09", "cJSON_PrintPreallocated(n = %ld) wrote %ld byte(s) before the buffer", n, i + 1); break; }
             if (r) {
-                if (n < (long)RL + 1 || memchr(buf, 0, (size_t)n) == NULL || strcmp((char*)buf, ref_text)) viol("C09", "cJSON_PrintPreallocated(n = %ld) returned true but the buffer does not hold the complete terminated text", n);
+                if (n < (long)RL + 1 || memchr(buf, 0, (size_t)n) == NULL || strcmp((char*)buf, ref_text)) viol("C09 C05", "cJSON_PrintPreallocated(n = %ld, format = %d) returned true but the buffer does not hold the complete terminated text", n, vb_truthy(fmt, (unsigned long)tv));
             } else {
                 if (n >= (long)RL + 6) viol("C09", "cJSON_PrintPreallocated(n = %ld) failed although the text with terminator needs %zu bytes", n, RL + 1);
                 if (prev_ok) viol("C09", "cJSON_PrintPreallocated succeeds with fewer bytes but fails with %ld", n);
             }
-            if ((r != 0) != (n >= thr)) VD.drift++;
+            if (tv == 0 && (r != 0) != (n >= thr)) VD.drift++;
             prev_ok = r;
+        }
+    }
+    /* every member printed where it stands (siblings, key): the text of that member alone (C05, C04) */
+    if (ref_text && line->n >= 6 && L < 5000) {
+        const jv *subs = jv_at(line, 5); cJSON *c; size_t i = 0;
+        for (c = t->child; c && subs && i < subs->n; c = c->next, i++) {
+            static char sub[1 << 16]; const jv *sb = subs->e[i]; size_t SL = sb->n, q; char *s; int ep; static char pb[(1 << 16) + 64];
+            if (SL + 1 > sizeof(sub)) continue;
+            for (q = 0; q < SL; q++) sub[q] = (char)jv_int(sb->e[q]);
+            sub[SL] = 0;
+            if (!VD_TRY()) { al_in_call = 0; viol("*", "printing member %zu in place: memory fault", i); break; }
+            al_in_call = 1;
+            for (ep = 0; ep < 4; ep++) {
+                al_window(0);
+                if (ep == 0) s = fmt ? cJSON_Print(c) : cJSON_PrintUnformatted(c);
+                else if (ep == 1) s = cJSON_PrintBuffered(c, 0 + (int)(SL / 2) + 1, vb_truthy(fmt, i));
+                else if (ep == 2) s = cJSON_PrintBuffered(c, (int)SL + 8, fmt);
+                else { memset(pb, 0x55, SL + 40); s = cJSON_PrintPreallocated(c, pb, (int)SL + 6, vb_truthy(fmt, i + 1)) ? pb : NULL; }
+                print_calls++; inplace_calls++;
+                if (!s) viol("C05 C04 C09", "printing member %zu where it stands (entry point %d) failed", i, ep);
+                else if (strcmp(s, sub)) viol("C05 C04", "member %zu printed where it stands (entry point %d: 0 Print/PrintUnformatted, 1-2 PrintBuffered, 3 PrintPreallocated) gives %.120s, not the text of that item alone", i, ep, s);
+                if (ep == 3 && s && (pb[SL + 6] != 0x55)) viol("C09", "cJSON_PrintPreallocated on member %zu wrote beyond the n bytes it was given", i);
+                if (ep < 3) cJSON_free(s);
+            }
+            al_in_call = 0; VD_END();
         }
     }
     (void)h0;
     free(ref_text);
+    return 1;
+}
+
+/* ["E", table]: the escape function of the specification is a byte-wise map; every string of 1, 2 and 3 non-zero bytes is printed
+ * (into a caller buffer, so that 16.6 million calls stay cheap) and must be the quoted concatenation of the table entries; a sample is
+ * also printed through the allocating entry point and parsed back (C04: same bytes) */
+static int utf8_ok(const unsigned char *s, int n)
+{
+    int i = 0;
+    while (i < n) {
+        unsigned c = s[i];
+        if (c < 0x80) { i++; continue; }
+        if (c >= 0xC2 && c <= 0xDF) { if (i + 1 >= n || (s[i + 1] & 0xC0) != 0x80) return 0; i += 2; continue; }
+        if (c >= 0xE0 && c <= 0xEF) { if (i + 2 >= n || (s[i + 1] & 0xC0) != 0x80 || (s[i + 2] & 0xC0) != 0x80) return 0;
+            if (c == 0xE0 && s[i + 1] < 0xA0) return 0; if (c == 0xED && s[i + 1] >= 0xA0) return 0; i += 3; continue; }
+        return 0;      /* four-byte forms do not fit into three bytes */
+    }
+    return 1;
+}
+static int do_table(const jv *line, int full)
+{
+    static unsigned char E[256][8]; static size_t EL[256]; const jv *tab = jv_at(line, 1); size_t b; cJSON *item; char val[4]; char out[64], exp[64];
+    unsigned b1, b2, b3; int len;
+    if (!tab || tab->n != 255) return -1;
+    for (b = 1; b <= 255; b++) { const jv *e = tab->e[b - 1]; size_t q; if (e->n > 7) return -1; EL[b] = e->n; for (q = 0; q < e->n; q++) E[b][q] = (unsigned char)jv_int(e->e[q]); }
+    use_custom_hooks();
+    item = cJSON_CreateStringReference(val);
+    if (!VD_TRY()) { viol("*", "printing short strings: memory fault"); return 1; }
+    for (len = 1; len <= 3; len++)
+        for (b1 = 1; b1 <= 255; b1++) {
+            vd_tick();
+            for (b2 = (len >= 2 ? 1 : 0); b2 <= (len >= 2 ? 255u : 0u); b2++) {
+                unsigned step3 = 1, start3 = (len >= 3 ? 1 : 0);
+                if (len == 3 && !full && !(b1 >= 0xC0 || b1 < 0x30 || b1 == 0x5C || b1 == 0x7F)) { step3 = 7; start3 = 1 + (b1 + b2) % 7; }   /* quick: every third byte for lead bytes, controls, quote, backslash; a stride elsewhere */
+                for (b3 = start3; b3 <= (len >= 3 ? 255u : 0u); b3 += step3) {
+                    size_t o = 0; int r, fmt = (int)((b1 ^ b2 ^ b3) & 1);
+                    val[0] = (char)b1; val[1] = (char)b2; val[2] = (char)b3; val[len] = 0;
+                    exp[o++] = '"';
+                    memcpy(exp + o, E[b1], EL[b1]); o += EL[b1];
+                    if (len >= 2) { memcpy(exp + o, E[b2], EL[b2]); o += EL[b2]; }
+                    if (len >= 3) { memcpy(exp + o, E[b3], EL[b3]); o += EL[b3]; }
+                    exp[o++] = '"'; exp[o] = 0;
+                    memset(out, 0x55, sizeof(out));
+                    r = cJSON_PrintPreallocated(item, out, (int)o + 6, fmt); table_strings++;
+                    if (r && !strcmp(out, exp) && (unsigned char)out[o + 6] != 0x55) viol("C09", "cJSON_PrintPreallocated wrote beyond the n bytes it was given (string bytes %02x %02x %02x)", b1, b2, b3);
+                    if (!r || strcmp(out, exp)) {
+                        /* not the bytes of the transcription: judged by what the properties demand (the text denotes the same string; a sample goes to the TLA+ grammar) */
+                        char *s = cJSON_PrintUnformatted(item); cJSON *back = s ? cJSON_Parse(s) : NULL; const unsigned char *p; int q;
+                        drift_texts++; VD.drift++;
+                        if (!s) viol("C04 C05", "string with bytes %02x %02x %02x cannot be printed", b1, b2, b3);
+                        else if (!back || !cJSON_IsString(back) || strcmp(back->valuestring, val)) viol("C04", "string with bytes %02x %02x %02x does not survive print and parse (printed as %.40s)", b1, b2, b3, s);
+                        else if (driftf && drift_recorded < 400 && utf8_ok((const unsigned char*)val, len)) {      /* C05 speaks of valid UTF-8 strings */
+                            drift_recorded++; fprintf(driftf, "{\"v\":[\"s\",["); for (q = 0; q < len; q++) fprintf(driftf, "%s%u", q ? "," : "", (unsigned char)val[q]);
+                            fprintf(driftf, "]],\"fmt\":false,\"text\":["); for (p = (const unsigned char*)s; *p; p++) fprintf(driftf, "%s%u", p == (const unsigned char*)s ? "" : ",", *p); fprintf(driftf, "]}\n"); }
+                        if (s && r && strcmp(s, out)) viol("C05", "cJSON_PrintPreallocated and cJSON_PrintUnformatted give different bytes for the string %02x %02x %02x", b1, b2, b3);
+                        if (s && !r) viol("C09", "cJSON_PrintPreallocated fails with text length + 6 bytes for the string %02x %02x %02x", b1, b2, b3);
+                        cJSON_free(s); cJSON_Delete(back);
+                        if (VD.violations > 20) goto done;
+                        continue;
+                    }
+                    if (len < 3 || ((b1 * 65536u + b2 * 256u + b3) % 61u) == 0 || b1 >= 0xE0) {
+                        if (len == 3 && !full && b1 >= 0xE0 && ((b2 + b3) % 5u)) continue;
+                        { char *s = cJSON_PrintUnformatted(item); cJSON *back = s ? cJSON_Parse(s) : NULL;
+                          if (!s || strcmp(s, exp)) viol("C05", "cJSON_PrintUnformatted and cJSON_PrintPreallocated give different bytes for the string %02x %02x %02x: %.40s", b1, b2, b3, s ? s : "(null)");
+                          else if (!back || !cJSON_IsString(back) || strcmp(back->valuestring, val)) viol("C04", "string with bytes %02x %02x %02x does not survive print and parse (text %s)", b1, b2, b3, s);
+                          cJSON_free(s); cJSON_Delete(back); }
+                    }
+                }
+            }
+        }
+done:
+    VD_END();
+    cJSON_Delete(item);
     return 1;
 }
 
@@ -212,6 +314,7 @@ int vd_print_main(int argc, char **argv)
         if (!strcmp(argv[k], "--stats") && k + 1 < argc) stats = argv[k + 1];
         if (!strcmp(argv[k], "--drift") && k + 1 < argc) driftf = fopen(argv[k + 1], "w");
         if (!strcmp(argv[k], "--failinject")) do_failinject = 1;
+        if (!strcmp(argv[k], "--fulltable")) full_table = 1;
     }
     use_custom_hooks(); region_init(); vd_install_handlers();
     while ((len = getline(&line, &cap, stdin)) > 0 || (len < 0 && errno == EINTR && !feof(stdin) && (clearerr(stdin), 1))) {
@@ -219,6 +322,7 @@ int vd_print_main(int argc, char **argv)
         if (len <= 0) continue;
         if (line[0] != '"') { if (VD.passthrough) fputs(line, VD.passthrough); continue; }
         copy = strdup(line); jv_reset(); v = jv_parse_line(line);
+        if (v && v->t == JV_ARR && v->n == 2 && jv_is_str(jv_at(v, 0), "E")) { VD.curline = copy; VD.cases++; if (do_table(v, full_table) < 0) { fprintf(stderr, "vdrv: cannot interpret escape table\n"); return 2; } VD.nontrivial++; VD.curline = NULL; free(copy); continue; }
         if (!v || v->t != JV_ARR || v->n < 5 || !jv_is_str(jv_at(v, 0), "R")) { if (VD.passthrough) fputs(copy, VD.passthrough); free(copy); continue; }
         VD.curline = copy; VD.cases++;
         rc = do_case(v);
@@ -228,8 +332,8 @@ int vd_print_main(int argc, char **argv)
         vd_tick(); VD.curline = NULL; free(copy);
     }
     if (driftf) fclose(driftf);
-    snprintf(extra, sizeof(extra), "\"print_calls\": %ld, \"preallocated_calls\": %ld, \"texts_differing_from_prediction\": %ld, \"texts_sent_to_tla_grammar\": %ld, \"failinject_runs\": %ld, \"other_property_violations\": %ld",
-             print_calls, prealloc_calls, drift_texts, drift_recorded, failinj_runs, VD.by_kind[0]);
+    snprintf(extra, sizeof(extra), "\"print_calls\": %ld, \"members_printed_in_place_calls\": %ld, \"short_strings_against_escape_table\": %ld, \"preallocated_calls\": %ld, \"texts_differing_from_prediction\": %ld, \"texts_sent_to_tla_grammar\": %ld, \"failinject_runs\": %ld, \"other_property_violations\": %ld",
+             print_calls, inplace_calls, table_strings, prealloc_calls, drift_texts, drift_recorded, failinj_runs, VD.by_kind[0]);
     if (stats) vd_write_stats(stats, extra);
     return VD.violations ? 1 : 0;
 }
